@@ -1,9 +1,9 @@
-\* GEN_users -- generated by mkcfg.py; two users whose names differ in case only, on one 5-tuple: ownership checks on every method; U1 is over its allocation quota
+\* GEN_stream -- generated by mkcfg.py; a datagram client and a stream client with the same IP and port; the control connection closes
 SPECIFICATION Spec
 VIEW View
 CONSTANTS
-  Clients = {"c1"}
-  Users = {"u1", "U1"}
+  Clients = {"c1", "s1"}
+  Users = {"u1"}
   PeerIPs = {"A"}
   PeerPorts = {1}
   Fam <- MCFam
@@ -12,7 +12,7 @@ CONSTANTS
   ReqFams = {0}
   ChanNums = {16384}
   LifeReqs <- MCLifeAbsent0
-  Txids = {"t1", "t2"}
+  Txids = {"t1"}
   Pays = {"p"}
   Lens <- MCLenSmall
   InboundMTU = 1600
@@ -24,7 +24,7 @@ CONSTANTS
   Denied <- MCNoDenied
   Toks = {"none"}
   ResvTO = 30
-  QuotaDenied = {"U1"}
+  QuotaDenied = {}
   MaxDepth = 5
 CONSTRAINT DepthBound
 ACTION_CONSTRAINT EmitEdge
